@@ -626,6 +626,17 @@ def rule_o6(repo, col):
 
 
 def run(repo, col):
+    # a registration that closes over a loop variable makes every operator of the loop behave like the last one: reported before anything else is read from the registry
+    col.rule("O7", "builtin registrations do not close over a loop variable")
+    try:
+        bi.registry(repo)
+        col.ok("O7", repo.module("problog.engine_builtin"), repo.func("problog.engine_builtin", "add_standard_builtins").node, "no registration closes over a loop variable",
+               construct="add_standard_builtins: late-binding scan", function="add_standard_builtins")
+    except bi.LateBinding as e:
+        col.fail("O7", repo.module("problog.engine_builtin"), e.node, "add_standard_builtins registers a builtin inside a loop with a lambda that reads the loop variable %s when it is called: "
+                 "Python binds the name, not the value, so every builtin registered by the loop uses the value of the LAST iteration - the comparison operators registered this way all behave "
+                 "like the last one (1 @> 2 succeeds)" % ", ".join(sorted(e.loopvars)), construct="add_standard_builtins: lambda closes over a loop variable", function="add_standard_builtins")
+        return
     col.rule("O0", "compare(a,b) three-way contract")
     col.rule("O1", "comparator-chain discipline (no possibly non-zero verdict is dropped or overwritten)")
     col.rule("O2", "StructSort rich comparisons use their own operator")
